@@ -424,7 +424,8 @@ class AsmWriter:
             self.format_warn('Register description contains address ({}) not converted to a label:\n{}',
                              'Register description contains addresses ({}) not converted to labels:\n{}',
                              self.find_unconverted_addresses(reg_desc, self.entry.ignoreua['r']), reg_desc)
-            self.write_line(reg_desc)
+            for line in reg_lines:
+                self.write_line(line)
 
     def print_instruction_prefix(self, instruction, index):
         if instruction.mid_block_comment:
